@@ -283,6 +283,70 @@ pub fn repeat_cycle(c: &Collector, prop: &str, engine: &str, base: &Base, cycle:
     local.flush(c);
 }
 
+/// Every Unicode scalar value from U+0100 up, drawn alone (planes 0-2 and 14; all 17 planes in the
+/// thorough tier) and, for the BMP, between two ASCII letters: width tables, normalisation and
+/// "fast paths" that classify characters by range show on code points no hand-picked text contains.
+/// The work is split by giving every chunk of code points its own copy of each base state (the
+/// copies differ by trailing BEL operations, which change nothing).
+pub fn unicode_sweep(c: &Collector, prop: &'static str, engine: &'static str, scripts: Vec<Vec<Op>>, geom: (u32, u32)) {
+    const CHUNKS: usize = 32;
+    let all_planes = c.thorough();
+    let mut cps: Vec<u32> = Vec::new();
+    for cp in 0x100u32..=0x10ffff {
+        if char::from_u32(cp).is_none() {
+            continue;
+        }
+        let plane = cp >> 16;
+        if all_planes || plane <= 2 || plane == 14 {
+            cps.push(cp);
+        }
+    }
+    let mut bases = Vec::new();
+    for script in &scripts {
+        let base_len = script.len();
+        for k in 0..CHUNKS {
+            let mut sc = script.clone();
+            for _ in 0..k {
+                sc.push(Op::Bell);
+            }
+            if let Ok(s) = crate::ops::build(geom.0, geom.1, &sc) {
+                bases.push((base_len, Base { columns: geom.0, lines: geom.1, script: sc, screen: s }));
+            }
+        }
+    }
+    let lens: std::collections::HashMap<Vec<String>, usize> = scripts.iter().map(|s| (s.iter().map(|o| o.short()).collect::<Vec<_>>(), s.len())).collect();
+    let _ = lens;
+    let base_lens: Vec<usize> = scripts.iter().map(|s| s.len()).collect();
+    let only: Vec<Base> = bases.into_iter().map(|(_, b)| b).collect();
+    let n_cps = cps.len();
+    sweep(
+        c,
+        &only,
+        move |b| {
+            // chunk = number of trailing BELs
+            let k = b.script.iter().rev().take_while(|o| matches!(o, Op::Bell)).count();
+            let _ = &base_lens;
+            let mut v = Vec::with_capacity(2 * n_cps / CHUNKS + 2);
+            for (i, cp) in cps.iter().enumerate() {
+                if i % CHUNKS != k {
+                    continue;
+                }
+                let ch = char::from_u32(*cp).unwrap();
+                v.push(Op::Draw(ch.to_string()));
+                if *cp <= 0xffff {
+                    v.push(Op::Draw(format!("a{}b", ch)));
+                }
+            }
+            v
+        },
+        move |c, t, local| {
+            local.count("unicode_draws");
+            refine_all(c, prop, engine, t, local);
+        },
+    );
+    c.bound("unicode_sweep", json!(if all_planes { "every scalar value U+0100..=U+10FFFF alone; BMP also between two letters" } else { "every scalar value of planes 0, 1, 2 and 14 from U+0100 alone; BMP also between two letters" }));
+}
+
 /// Histories WITHOUT state merging (a tree): redundant internal state (a cached flag mirroring
 /// a mode, a memoised table) that one path forgets to update is invisible to the state key, so
 /// merging would hide it. `ops`: the operations that maintain / consult the state in question
@@ -1162,6 +1226,13 @@ pub fn c04(c: &Collector, g: &mut Guard) {
         local.count("large_geometry_transitions");
         refine_all(c, "C04", "E2.depth1.large", t, local);
     });
+    unicode_sweep(
+        c,
+        "C04",
+        "E2.unicode",
+        vec![vec![Op::Draw("k".into())], vec![Op::Draw("kl".into()), Op::Sm(vec![4], false), Op::Sgr(vec![1, 32]), Op::Cup(Some(1), Some(2))]],
+        (6, 2),
+    );
     let depth = if c.thorough() { 4 } else { 3 };
     let bgeoms: Vec<(u32, u32)> = if c.thorough() { vec![(3, 2), (2, 2), (4, 2)] } else { vec![(3, 2)] };
     for (gc, gl) in bgeoms {
@@ -1239,6 +1310,7 @@ pub fn c04(c: &Collector, g: &mut Guard) {
     c.bound("bfs_depth", json!(depth));
     c.bound("texts", json!(c04_texts(4).iter().map(|t| crate::ops::esc(t)).collect::<Vec<_>>()));
     g.need(c, "tree_judged");
+    g.need(c, "unicode_draws");
     g.need(c, "then_grow");
     g.need(c, "large_geometry_transitions");
     g.need(c, "model_wrapped");
